@@ -88,6 +88,8 @@ def load_corpus():
     for f in sorted(d.glob("*.json")) if d.is_dir() else []:
         body = json.loads(f.read_text())
         for c in body if isinstance(body, list) else [body]:
+            if "kernel" not in c:          # whole programs (programs.json) belong to harness/c08_families.py
+                continue
             out.append({"kernel": c["kernel"], "env": [(x, untuple(v)) for x, v in c["env"]], "expr": untuple(c["expr"]),
                         "origin": "corpus:" + f.stem, "note": c.get("note", ""), "expect_class": c.get("expect_class")})
     return out
